@@ -17,7 +17,14 @@ func init() {
 	})
 }
 
+type bsiKept struct {
+	x    *bsiX
+	m    bsiModel
+	from string
+}
+
 type bsiCase struct {
+	kept   []bsiKept // operands of earlier ParOr / Add calls: they stay alive and must keep their own maps
 	x      *bsiX
 	m      bsiModel
 	lo, hi int64
@@ -74,7 +81,7 @@ func c19Histories(c *Ctx) {
 	h := uint64(0)
 	maxCols := 0
 	for i := 0; i < steps && !c.Failed(); i++ {
-		op := []string{"SetValue", "SetValue", "SetValue", "SetMany", "ClearValues", "Retain", "ParOr", "Increment", "Add", "SetBigValue", "RunOptimize"}[r.Intn(11)]
+		op := []string{"SetValue", "SetValue", "SetValue", "SetMany", "ClearValues", "Retain", "ParOr", "Increment", "Add", "SetBigValue", "RunOptimize", "TouchOperand"}[r.Intn(12)]
 		sig := x.name() + "/" + op
 		switch op {
 		case "SetValue":
@@ -174,6 +181,7 @@ func c19Histories(c *Ctx) {
 			add := bsiModel{}
 			width := ""
 			neg := false
+			var opCols [][]uint64
 			for j := 0; j < n; j++ {
 				o := newBSIX(bc.is64, 0, 0)
 				// different widths: each operand draws from its own magnitude class
@@ -185,6 +193,7 @@ func c19Histories(c *Ctx) {
 				if r.Chance(0.5) {
 					lo = maxI64(lo, 0)
 				}
+				opCols = append(opCols, nil)
 				for k := 0; k < 1+r.Intn(4); k++ {
 					col := genCol(r, bc.is64)
 					if used[col] {
@@ -194,6 +203,7 @@ func c19Histories(c *Ctx) {
 					v := genVal(r, lo, hi)
 					o.setValue(col, v)
 					add[col] = big.NewInt(v)
+					opCols[len(opCols)-1] = append(opCols[len(opCols)-1], col)
 					if v < 0 {
 						neg = true
 					}
@@ -207,6 +217,11 @@ func c19Histories(c *Ctx) {
 				}
 				width += fmt.Sprintf("%d ", o.bitCount())
 				others = append(others, o)
+				om := bsiModel{}
+				for _, col := range opCols[len(opCols)-1] {
+					om[col] = add[col]
+				}
+				bc.kept = append(bc.kept, bsiKept{o, om, "ParOr-operand"})
 			}
 			par := []int{0, 1, 2, 4}[r.Intn(4)]
 			c.Step("ParOr(workers=%d) with %d indexes (bit counts %s; target %d) adding %s", par, n, width, x.bitCount(), add)
@@ -278,7 +293,33 @@ func c19Histories(c *Ctx) {
 						bc.m[k] = v
 					}
 				}
+				bc.kept = append(bc.kept, bsiKept{o, add.clone(), "Add-operand"})
+				if r.Chance(0.25) {
+					// the same operand is added a second time (a live operand may be reused)
+					c.Step("Add(the same index again)")
+					if c.Guard(sig, func() { x.add(o) }) {
+						return
+					}
+					for k, v := range add {
+						bc.m[k] = new(big.Int).Add(bc.m[k], v)
+					}
+				}
 			}
+		case "TouchOperand":
+			// an operand of an earlier ParOr / Add is an index of its own: updating it must not change the target
+			if len(bc.kept) == 0 {
+				continue
+			}
+			k := &bc.kept[r.Intn(len(bc.kept))]
+			col, v := genCol(r, bc.is64), genVal(r, -1000, 1<<40)
+			if cs := k.m.cols(); len(cs) > 0 && r.Chance(0.6) {
+				col = cs[r.Intn(len(cs))]
+			}
+			c.Step("on a kept %s: SetValue(%d,%d)", k.from, col, v)
+			if c.Guard(sig, func() { k.x.setValue(col, v) }) {
+				return
+			}
+			k.m[col] = big.NewInt(v)
 		case "RunOptimize":
 			c.Step("RunOptimize()")
 			if bc.is64 {
@@ -294,6 +335,15 @@ func c19Histories(c *Ctx) {
 		h = mix(h, hashStr(c.hist[len(c.hist)-1]))
 		if !checkBSI(c, x, bc.m, x.name()+"/after-"+op, bc.probeCols(r)) {
 			return
+		}
+		// operands of earlier calls are indexes of their own: an update of the target must not change them
+		if len(bc.kept) > 8 {
+			bc.kept = bc.kept[len(bc.kept)-8:]
+		}
+		for _, k := range bc.kept {
+			if !checkBSI(c, k.x, k.m, x.name()+"/"+k.from+"-changed-by-later-"+op, nil) {
+				return
+			}
 		}
 		if i%6 == 5 {
 			c19Copies(c, bc)
